@@ -637,9 +637,14 @@ fn exec(c: &Case) -> Outcome {
 }
 
 fn do_case(o: &mut Out, c: &Case) {
-    let out = exec(c);
     let mut toks = vec![];
     prog_txt(&c.ops, &mut toks);
+    if let Ok(mut cur) = CURRENT_CASE.lock() {
+        *cur = format!("{} data={} spare={} caps={} prog={}", c.kind.txt(), hex(&c.data), hex(&c.spare), caps_txt(&c.caps), toks.join(" "));
+    }
+    PANICS_IN_FLIGHT.store(0, std::sync::atomic::Ordering::SeqCst);
+    let out = exec(c);
+    PANICS_IN_FLIGHT.store(0, std::sync::atomic::Ordering::SeqCst);
     let case = format!("{}\t{}\t{}\t{}\t{}\t{}", if c.lib_open { "read" } else { "run" }, c.kind.txt(), hex(&c.data), hex(&c.spare), caps_txt(&c.caps), toks.join(" "));
     let res = format!("{} | {} | {} | {} | {}", out.tr.join(" "), out.exit, hex(&out.data), hex(&out.rest), hex(&out.log));
     let sig = format!("{}{}{}:{:x}:{}", c.kind.txt(), c.caps.len(), out.exit.chars().take(6).collect::<String>(), out.flags, out.depth);
@@ -834,13 +839,23 @@ fn make_case(r: &mut Rng, kind: Kind, total: usize, len: usize, hostile: bool) -
 }
 
 static LAST_PANIC: std::sync::Mutex<String> = std::sync::Mutex::new(String::new());
+static CURRENT_CASE: std::sync::Mutex<String> = std::sync::Mutex::new(String::new());
+static PANICS_IN_FLIGHT: std::sync::atomic::AtomicUsize = std::sync::atomic::AtomicUsize::new(0);
 
 fn main() {
-    // `guard` silences the panic hook; keep the location of the last panic for diagnosis
+    // `guard` silences the panic hook; keep the location of the last panic for diagnosis, and name
+    // the case when a second panic starts while the first one unwinds (a panicking Drop: the
+    // process is about to abort and no result files will be written)
     let _ = guard(|| ());
     std::panic::set_hook(Box::new(|info| {
+        let msg = format!("{}", info).replace('\n', " ");
+        if PANICS_IN_FLIGHT.fetch_add(1, std::sync::atomic::Ordering::SeqCst) > 0 {
+            let case = CURRENT_CASE.lock().map(|c| c.clone()).unwrap_or_default();
+            eprintln!("panic while unwinding (abort) in case: {}\n  first: {}\n  second: {}", case,
+                      LAST_PANIC.lock().map(|l| l.clone()).unwrap_or_default(), msg);
+        }
         if let Ok(mut l) = LAST_PANIC.lock() {
-            *l = format!("{}", info).replace('\n', " ");
+            *l = msg;
         }
     }));
     if let Err(e) = guard(real_main) {
@@ -855,6 +870,14 @@ fn real_main() {
     let mut r = Rng::new(a.seed);
     let th = a.thorough();
 
+    // `--scale N` (percent) shrinks or grows the random part, `--sweep N` keeps every Nth case of the
+    // sweep: for a (much slower) run under Miri. ./check never passes them.
+    let opt = |name: &str, dflt: usize| -> usize {
+        a.extra.iter().position(|x| x == name).and_then(|i| a.extra.get(i + 1)).and_then(|x| x.parse().ok()).unwrap_or(dflt)
+    };
+    let scale = opt("--scale", 100);
+    let sweep_step = opt("--sweep", 1).max(1);
+    let mut sweep_i = 0usize;
     // ---- sweep: every store kind x capacity x cap_at value around it (the cap_at boundary)
     for &kind in &[Kind::Vec, Kind::ArrayVec, Kind::Slice, Kind::SliceRef] {
         for total in 0..=40usize {
@@ -865,6 +888,8 @@ fn real_main() {
                 let mut ns: Vec<u64> = (0..=spare as u64 + 2).collect();
                 ns.push(u64::MAX);
                 for n in ns {
+                    sweep_i += 1;
+                    if sweep_i % sweep_step != 0 { continue; }
                     let data = match kind { Kind::Vec | Kind::ArrayVec => gen_bytes(&mut r, len), _ => vec![] };
                     let sp = gen_bytes(&mut r, spare);
                     let w = gen_bytes(&mut r, spare + 1);
@@ -874,11 +899,11 @@ fn real_main() {
             }
         }
     }
-    o.exhaustive("cap_at(n) for every n in 0..=spare+2 and usize::MAX on every store kind, capacity 0..40 (ArrayVec: 0..32, 40), lengths 0, half, full");
+    if sweep_step == 1 { o.exhaustive("cap_at(n) for every n in 0..=spare+2 and usize::MAX on every store kind, capacity 0..40 (ArrayVec: 0..32, 40), lengths 0, half, full"); }
 
     // ---- random programs: every kind x capacity x pre-existing length
-    let per = if th { 40 } else { 3 };
-    let per_slice = if th { 400 } else { 40 };
+    let per = ((if th { 240 } else { 20 }) * scale + 99) / 100;
+    let per_slice = ((if th { 3600 } else { 300 }) * scale + 99) / 100;
     for &kind in &[Kind::Vec, Kind::ArrayVec, Kind::Slice, Kind::SliceRef] {
         for total in 0..=40usize {
             if kind == Kind::ArrayVec && !ARRAYVEC_CAPS.contains(&total) { continue; }
